@@ -341,7 +341,7 @@ func bindingRule(P *Program, R *Report) {
 				}
 			}
 		})
-		R.decide(rule, kNewParams+":base-name", "every R<i> base of the structure is named with the structure's attribute index", n >= 3 && bad == 0, fmt.Sprintf("%d uses, %d wrong", n, bad), P.Pos(np.Pos()))
+		R.decide(rule, kNewParams+":base-name", "every R<i> base of the structure is named with the structure's attribute index", n >= 1 && bad == 0, fmt.Sprintf("%d uses, %d wrong", n, bad), P.Pos(np.Pos()))
 	}
 }
 
